@@ -55,6 +55,16 @@ def m_into_iter_identity(c, x):
 def as_iter(ip, x):
     if isinstance(x, IterV):
         return x
+    if isinstance(x, Ptr):
+        t = ip.load(x.cell, x.path)
+        if isinstance(t, Ptr):
+            return as_iter(ip, t)
+        if isinstance(t, (Seq, SeqView)):
+            # iterating a borrowed collection yields element references
+            base = t.base if isinstance(t, SeqView) else t
+            off = t.start if isinstance(t, SeqView) else 0
+            cell = Cell(base, 'iter_base')
+            return IterV([Ptr(cell, (('i', BV(64, off + i)),)) for i in range(len(t.items))])
     v = deref(ip, x)
     if isinstance(v, IterV):
         return v
@@ -298,7 +308,16 @@ def sort_btree(ip, m):
 
 
 def key_eq(ip, a, b):
-    return val_eq(ip, a, b)
+    """Key equality: the key type's own PartialEq::eq from MIR when it has one (e.g. config::Address skips its
+    stats fields), structural equality otherwise."""
+    x = deref(ip, a) if isinstance(a, Ptr) else a
+    y = deref(ip, b) if isinstance(b, Ptr) else b
+    if isinstance(x, Agg) and isinstance(y, Agg) and x.ty and x.ty == y.ty and x.ty in ip.prog.src.structs:
+        cands = ip.prog.by_key.get('<%s as PartialEq>::eq' % x.ty, [])
+        if len(cands) == 1:
+            r = ip.call_function(cands[0], [Ptr(Cell(x, 'ka'), ()), Ptr(Cell(y, 'kb'), ())])
+            return as_cond(r)
+    return val_eq(ip, x, y)
 
 
 def map_find(ip, m, k):
